@@ -30,7 +30,7 @@ U == {
   E("outside/o.rs", "file", "rs", FALSE, 0),
   E("top.rs", "file", "rs", FALSE, 0),
   E("srcx/q.rs", "file", "rs", FALSE, 0) }
-ExtListsAll == {<<"default">>, <<"rs">>, <<"rs", "txt">>, <<"RS">>, <<"bak">>, <<"rs", "inc">>, <<"txt", "rs", "inc">>}
+ExtListsAll == {<<"default">>, <<"rs">>, <<"rs", "txt">>, <<"RS">>, <<"bak">>, <<"rs", "inc">>, <<"txt", "rs", "inc">>, <<"rs", "rs">>, <<"rs", "RS">>}
 TmpBoth == {"same", "otherfs"}
 TmpSame == {"same"}
 SourceDirsAll == {"rel", "dotrel", "abs", "updown", "hidden"}
